@@ -1,7 +1,7 @@
 """C13 — copies are independent, links share what they advertise, pickles round-trip.
 Correspondence harness (real tmo.Stream / tmo.MultiStream object graphs vs the heap model of
 coq/C13/Model.v), generators and the direct oracle."""
-import pickle, warnings
+import pickle, warnings, signal, functools
 import numpy as np
 from fractions import Fraction as F
 from vf import q, qlist, clist, cbool, cnat, copt, frac, fr_json
@@ -37,10 +37,40 @@ ASSUMPTIONS = ['float rounding is not modelled: values compared to 1e-9 relative
 TRUSTED = ['model coq/C13/Model.v is hand-written from thermosteam/_stream.py, _multi_stream.py, indexer.py, _phase.py, '
            '_thermal_condition.py; SparseVector rows are dense Q lists; tie = correspondence check on values and aliasing',
            'pickle of Reaction / Chemical / Thermo is executed, not modelled (harness compares observable state)',
+           'the equilibrium caches (_vle_cache, _lle_cache, _sle_cache) are executed, not modelled: after every operation their '
+           'references must be the MultiStream\'s own indexer and thermal condition (eq_cache_checks)',
            'the per-phase views ms[phase] (LockedPhase) are executed, not modelled: copies / flow proxies / pickles of a view are '
            'checked against the property clauses on the real objects (view_checks)',
            'the property memo (_property_cache, _property_cache_key) is modelled by its specification: H is a function of the '
            'current state (64 (T - 298.15) * total flow for the stub packages); read_H operations fill and use the memo']
+
+# ------------------------------------------------------------------ time limits
+# The driver's per-case limit is wall time; on a loaded machine a healthy case can exceed a short wall limit, so it is set
+# generously (a blocked call is still reported) and a real hang (a loop that burns CPU) is reported by a limit on the CPU
+# time of this process.  Neither is ever turned into a property message: both propagate out of run_impl / oracle.
+CASE_TIMEOUT = 900
+CPU_LIMIT = 90
+
+class CpuTimeout(Exception):
+    pass
+
+def _cpu_alarm(signum, frame):
+    raise CpuTimeout(f'more than {CPU_LIMIT} s of CPU time in one case: the implementation does not return')
+
+def cpu_limited(fn):
+    @functools.wraps(fn)
+    def wrapper(*a, **k):
+        old = signal.signal(signal.SIGVTALRM, _cpu_alarm)
+        signal.setitimer(signal.ITIMER_VIRTUAL, CPU_LIMIT)
+        try:
+            return fn(*a, **k)
+        finally:
+            signal.setitimer(signal.ITIMER_VIRTUAL, 0)
+            signal.signal(signal.SIGVTALRM, old)
+    return wrapper
+
+def is_timeout(ex):
+    return type(ex).__name__ in ('CaseTimeout', 'CpuTimeout')
 
 # ------------------------------------------------------------------ environment
 CHEMS = ['A_', 'B_', 'C_', 'D_']
@@ -55,11 +85,16 @@ def env():
     if not _env:
         warnings.filterwarnings('ignore')
         import thermosteam as tmo
-        mk = lambda n, mw: tmo.Chemical(n, search_db=False, MW=mw, Hf=0., Cn=64., phase='l', default=True)
+        mk = lambda n, mw, **k: tmo.Chemical(n, search_db=False, MW=mw, Hf=0., Cn=64., phase='l', default=True, **k)
         cs = [mk(n, mw) for n, mw in zip(CHEMS, [16., 32., 8., 4.])]
         _env['tmo'] = tmo
         _env['chems'] = cs
         _env['thermo'] = [tmo.Thermo(tmo.Chemicals([cs[i] for i in p])) for p in PKGS]
+        # a package whose chemicals carry user-defined names (constructor aliases / synonyms and Chemicals.set_alias)
+        al = [mk('E_', 16., aliases={'Eta'}), mk('F_', 8., synonyms='Phi0'), mk('G_', 4.)]
+        _env['alias_thermo'] = tmo.Thermo(tmo.Chemicals(al))
+        _env['alias_thermo'].chemicals.set_alias('F_', 'Phi')
+        _env['alias_names'] = {'E_': ['Eta'], 'F_': ['Phi0', 'Phi'], 'G_': []}
         tmo.settings.set_thermo(_env['thermo'][0])
     return _env
 
@@ -349,13 +384,36 @@ def view_checks(store):
                 if (t.phase, dict(t._imol.data.dct), t.T) != (c3.phase, dict(c3._imol.data.dct), c3.T):
                     msgs.append(f'view: pickled copy of stream {k}[{p!r}] differs from the copy')
             except Exception as ex:
+                if is_timeout(ex): raise
                 msgs.append(f'view: copy / flow proxy of the phase view {k}[{p!r}] is not an ordinary stream: raised {type(ex).__name__}: {ex}')
+    return msgs[:3]
+
+def eq_cache_checks(store):
+    """the VLE / LLE / SLE caches of a MultiStream keep REFERENCES to its indexer and thermal condition; whatever rebinds one
+    of the two (link_with, unlink, a phases change, copy_like onto a Stream) must leave the caches pointing at the stream's own
+    current objects, else an equilibrium call writes T, P or flows into another stream.  Executed, not modelled."""
+    tmo = env()['tmo']; msgs = []
+    for k, s in enumerate(store):
+        if type(s) is not tmo.MultiStream or not is_multi(s): continue
+        for nm in ('_vle_cache', '_lle_cache', '_sle_cache'):
+            c = getattr(s, nm, None)
+            if c is None: continue
+            objs = [c.args] + ([(c.value._imol, c.value._thermal_condition)] if getattr(c, 'value', None) is not None
+                               and hasattr(c.value, '_imol') and hasattr(c.value, '_thermal_condition') else [])
+            for a in objs:
+                if a[0] is not s._imol:
+                    msgs.append(f'equilibrium: {nm[1:4].upper()} of stream {k} works on an indexer that is not the stream\'s own')
+                elif a[1] is not s._thermal_condition:
+                    who = [j for j, t in enumerate(store) if t is not s and t._thermal_condition is a[1]]
+                    msgs.append(f'equilibrium: {nm[1:4].upper()} of stream {k} would write T, P into a thermal condition that is not '
+                                f'the stream\'s own' + (f' (it is that of stream {who[0]}: they still share it)' if who else ''))
     return msgs[:3]
 
 def touch_keys(store):
     for s in store:
         try: keyed_rows(s)
-        except Exception: pass
+        except Exception as ex:
+            if is_timeout(ex): raise
 
 def snapshot(store):
     vals = [values(s) for s in store]
@@ -495,8 +553,29 @@ def aux_pickles(rx):
                 and type(t2.Gamma) is type(t.Gamma) and type(t2.Phi) is type(t.Phi) and type(t2.PCF) is type(t.PCF)
                 and [c.MW for c in t2.chemicals] == [c.MW for c in t.chemicals]):
             msgs.append('pickle: Thermo state differs after round-trip')
-    return msgs
+    # every name a chemical can be addressed by before pickling still addresses it afterwards
+    ath = e['alias_thermo']; names = e['alias_names']
+    for c in ath.chemicals:
+        c2 = pickle.loads(pickle.dumps(c))
+        if set(c2.aliases) != set(c.aliases):
+            msgs.append(f'pickle: Chemical {c.ID} loses its user-defined names {sorted(c.aliases)} -> {sorted(c2.aliases)}')
+    a2 = pickle.loads(pickle.dumps(ath))
+    st = tmo.Stream(None, Eta=rx['a'], Phi=rx['b'], Phi0=rx['X'], thermo=ath)
+    st2 = pickle.loads(pickle.dumps(st))
+    for cid, als in names.items():
+        for nm in [cid] + als:
+            for what, obj, ref in (('Thermo', lambda: a2.chemicals[nm].ID, cid),
+                                   ('Stream', lambda: float(st2.imol[nm]), float(st.imol[nm]))):
+                try:
+                    got = obj()
+                except Exception as ex:
+                    if is_timeout(ex): raise
+                    got = type(ex).__name__
+                if got != ref:
+                    msgs.append(f'pickle: after the round trip of a {what} the name {nm!r} of chemical {cid} gives {got!r} instead of {ref!r}')
+    return msgs[:4]
 
+@cpu_limited
 def run_impl(case):
     env()
     out = {'new': [], 'ops': [], 'res': []}
@@ -505,6 +584,7 @@ def run_impl(case):
         try:
             store.append(build_stream(spec)); out['new'].append('ok')
         except Exception as ex:
+            if is_timeout(ex): raise
             out['new'].append(ERR.get(type(ex).__name__, 'EOther'))
     if not store:
         out['final'] = []; out['pickle_ok'] = True; out['aux'] = []; out['keyed'] = []; out['mass'] = []; out['mphases'] = []; out['H'] = []; out['views'] = []; out['reads'] = []
@@ -519,6 +599,7 @@ def run_impl(case):
             if r is not None:
                 store.append(r)
         except Exception as ex:
+            if is_timeout(ex): raise
             out['res'].append(ERR.get(type(ex).__name__, 'EOther'))
             out.setdefault('errors', []).append(type(ex).__name__)
         touch_keys(store)
@@ -529,7 +610,7 @@ def run_impl(case):
     # (an inconsistent MultiStream, see ASSUMPTIONS, is not read through H: xH zips phases with rows)
     out['reads'] = list(_reads)
     out['H'] = [float(s.H) if not inconsistent(s) else h_spec(s) for s in store]
-    out['views'] = view_checks(store)
+    out['views'] = view_checks(store) + eq_cache_checks(store)
     # real pickling of every final stream, compared with the in-process reduce (which the model predicts)
     ok = True; notes = []
     for k, s in enumerate(store):
@@ -539,10 +620,12 @@ def run_impl(case):
             f, args = s.__reduce__()
             inproc = values(f(*args))
         except Exception as ex:
+            if is_timeout(ex): raise
             inproc = type(ex).__name__
         try:
             pk = pickle_values(s)
         except Exception as ex:
+            if is_timeout(ex): raise
             pk = type(ex).__name__
         if isinstance(inproc, str) or isinstance(pk, str):
             same = inproc == pk
@@ -701,6 +784,7 @@ def views_agree(store, name):
         try:
             kr = keyed_rows(s)
         except Exception as ex:
+            if is_timeout(ex): raise
             return f'{name}: reading stream {k} by (phase, ID) raised {type(ex).__name__}'
         if kr != v['rows']:
             return f'{name}: flows of stream {k} read by (phase, ID) differ from its data rows: {kr} vs {v["rows"]}'
@@ -728,6 +812,7 @@ def h_check(store, k, name):
                 + (f' (it shares its property memo with stream {twins[0]}: a proxy does not see the same thermal data)' if twins else ''))
     return None
 
+@cpu_limited
 def oracle(case):
     env()
     store = []
@@ -735,6 +820,7 @@ def oracle(case):
         try:
             s = build_stream(spec)
         except Exception as ex:
+            if is_timeout(ex): raise
             return f'constructor: raised {type(ex).__name__} on valid arguments'
         if float(s.price) != spec['price']: return 'constructor: price given at construction is not kept'
         if dict(s.characterization_factors) != spec['cf']:
@@ -757,10 +843,13 @@ def oracle(case):
             r = apply_op(store, rop)
             raised = None
         except Exception as ex:
+            if is_timeout(ex): raise
             r = None; raised = type(ex).__name__
         if name in ('read_mass', 'set_mass') and raised: return f'{name}: raised {raised}'
         msg = views_agree(store, name)
         if msg: return msg
+        vm = eq_cache_checks(store)
+        if vm: return f'{name}: ' + vm[0]
         vm = view_checks(store)
         if vm: return vm[0]
         # frame: whatever happened to the target, streams sharing nothing with it are untouched
@@ -843,6 +932,7 @@ def oracle(case):
         try:
             w = pickle_values(s)
         except Exception as ex:
+            if is_timeout(ex): raise
             return f'pickle: raised {type(ex).__name__} (phases {v["phases"]}, multi={v["multi"]})'
         if not plus_equal(v, w, with_id=bool(s._ID)) and not (v['multi'] and len(v['phases']) == 1 and
                 plus_equal(dict(v, multi=False), w, with_id=bool(s._ID))):
@@ -857,6 +947,7 @@ def finding_key(case, msg):
     if head == 'unlink' and 'proxy' in msg: return 'C13:unlink-after-proxy'
     if 'bound to the phase object' in msg: return 'C13:view-phase'
     if msg.startswith('view:'): return 'C13:phase-view-copy'
+    if 'equilibrium:' in msg: return 'C13:equilibrium-cache'
     if ': H of stream' in msg: return 'C13:property-memo'
     if 'mass view' in msg: return 'C13:stale-mass-view'
     if '(phase, ID)' in msg: return 'C13:keyed-access'
